@@ -5,5 +5,5 @@ use libfuzzer_sys::fuzz_target;
 
 fuzz_target!(|data: &[u8]| {
     pmh_verif::util::install_panic_hook_once();
-    pmh_verif::props::fuzz("C09", data);
+    pmh_verif::fuzzdec::fuzz("C09", data);
 });
